@@ -141,11 +141,15 @@ def build(case):
     coords = {"x": x, "z": z}
     dims = ["z", "x"]
     if grid:
+        # (row / col coordinates in any order: ascending, descending or shuffled, numbers or strings)
+        gorders = ["asc", "desc", "shuffled"]
         if case["use_row"] or not case["use_col"]:
-            coords["r"] = _axis(rng, case["nr"], "float", "asc", lo=0.5)
+            coords["r"] = _axis(rng, case["nr"], ["float", "str"][case["dseed"] % 2], gorders[case["dseed"] % 3], lo=0.5)
+            if coords["r"] and isinstance(coords["r"][0], str):
+                coords["r"] = [["small", "medium", "large", "xl"][int(v[1:])] for v in coords["r"]]
             dims.insert(0, "r")
         if case["use_col"]:
-            coords["c"] = _axis(rng, case["nc"], rng.choice(["str", "int"]), "asc", lo=3)
+            coords["c"] = _axis(rng, case["nc"], rng.choice(["str", "int"]), gorders[(case["dseed"] // 3) % 3], lo=3)
             dims.insert(0, "c")
     # random dimension order of the stored variable
     prm = np.random.default_rng(case["dimorder_seed"]).permutation(len(dims))
